@@ -66,7 +66,10 @@ func (x *Exec) symbolicResult(st *State, c *callCtx) Value {
 
 func (x *Exec) freshErr(st *State, name string, nilT Term) VIface {
 	x.callCounter++
-	return VIface{Nil: nilT, Id: x.sym.Fresh(name+".id", SErr), Typ: types.Universe.Lookup("error").Type()}
+	id := x.sym.Fresh(name+".id", SErr)
+	// a freshly produced error is not one of the package-level sentinel errors
+	st.assume(Not(Eq(id, x.sym.Named("global.database/sql.ErrNoRows.id", SErr))))
+	return VIface{Nil: nilT, Id: id, Typ: types.Universe.Lookup("error").Type()}
 }
 
 func errType() types.Type { return types.Universe.Lookup("error").Type() }
@@ -173,6 +176,12 @@ func init() {
 		return x.finish(st, fr, c, x.symbolicResult(st, c))
 	})
 
+	reg("github.com/resonatehq/resonate/internal/app/subsystems/aio/store.StoreErr", "StoreErr wraps an error with caller information: non-nil whenever its argument is non-nil",
+		func(x *Exec, st *State, fr *Frame, c *callCtx) bool {
+			in, _ := x.force(st, c.args[0]).(VIface)
+			e := x.freshErr(st, "storeerr", And(in.Nil, x.sym.Fresh("storeerr.nil", SBool)))
+			return x.finish(st, fr, c, e)
+		})
 	// time
 	reg("(time.Duration).Milliseconds", "uninterpreted non-negative for non-negative durations", func(x *Exec, st *State, fr *Frame, c *callCtx) bool {
 		d := x.scalar(st, c.args[0])
